@@ -8,17 +8,33 @@
 (* payload 2 is 1000 bytes; with 3 values over >= 6 coordinates duplicates *)
 (* are the rule.  Design-level theorems are checked on the abstract writer *)
 (* model of Layout_VersaTiles; every state emits one REPLAY case.          *)
-EXTENDS Container, Layout_VersaTiles, Json
+EXTENDS Container, Layout_VersaTiles, Layout_MBTiles, Json
 
-CONSTANTS PairMode,     \* "std": the pairs below; "allcodecs": pbf x {none, gzip, brotli} (C12, C04)
+CONSTANTS PayloadIds,   \* payload ids 1..PayloadIds (0 = absent)
+          IndepDepth,   \* 0: quick per-format universes, 1: thorough
+          PairMode,     \* "std": the pairs below; "allcodecs": pbf x {none, gzip, brotli} (C12, C04)
           Universe,     \* sequence of <<z, x, y>>
           FormatsUsed,  \* subset of Formats
           Origin        \* "writer" | "indep"
+
+\* PMTiles: the four level-1 tiles are Hilbert-consecutive (ids 1..4: a run that bends), id 5 is the first level-2 tile
+\* (a run crossing a zoom boundary); versatiles: both sides of the block grid; the others: borders and zoom gaps
+UniverseIndep(f) ==
+    CASE f = "pmtiles" -> << <<1, 0, 0>>, <<1, 0, 1>>, <<1, 1, 1>>, <<1, 1, 0>>, <<9, 256, 255>> >>
+                          \o (IF IndepDepth = 1 THEN << <<2, 0, 0>> >> ELSE <<>>)
+      [] f = "versatiles" -> << <<0, 0, 0>>, <<9, 255, 255>>, <<9, 256, 255>>, <<9, 256, 256>> >>
+                          \o (IF IndepDepth = 1 THEN << <<9, 255, 256>>, <<3, 7, 0>> >> ELSE <<>>)
+      [] OTHER -> << <<0, 0, 0>>, <<1, 0, 1>>, <<3, 7, 7>>, <<9, 256, 255>> >>
+                          \o (IF IndepDepth = 1 THEN << <<9, 255, 255>> >> ELSE <<>>)
+
+\* the universe may depend on the format (independent-encoder runs use per-format universes)
+U(f) == IF Universe = <<>> THEN UniverseIndep(f) ELSE Universe
 
 VARIABLES assign, fmt, par, choice
 vars == <<assign, fmt, par, choice>>
 
 Pairs(f) ==
+    IF PairMode = "first" THEN {<<"pbf", "gzip">>} ELSE
     IF PairMode = "allcodecs" THEN {<<"pbf", "none">>, <<"pbf", "gzip">>, <<"pbf", "brotli">>} ELSE
     CASE f = "mbtiles" -> {<<"pbf", "gzip">>, <<"png", "none">>}
       [] f = "pmtiles" -> {<<"pbf", "gzip">>, <<"json", "none">>}
@@ -39,31 +55,37 @@ LayoutChoices(f) ==
            [] f = "tar" -> { [dot_prefix |-> a, dir_members |-> b, ustar |-> c, reverse |-> d] : a \in Bool, b \in Bool, c \in Bool, d \in Bool }
            [] OTHER -> { [extra_files |-> a] : a \in Bool }
 
-TilesOf(a) == \* sequence of <<z,x,y,p>> in universe order for the coordinates that have a payload
-    LET idx == {i \in 1..Len(Universe) : a[i] # 0}
+TilesOfU(Uv, a) == \* sequence of <<z,x,y,p>> in universe order for the coordinates that have a payload
+    LET idx == {i \in 1..Len(Uv) : a[i] # 0}
         RECURSIVE Build(_)
         Build(S) == IF S = {} THEN <<>>
                     ELSE LET i == CHOOSE j \in S : \A k \in S : j <= k
-                         IN <<<<Universe[i][1], Universe[i][2], Universe[i][3], a[i]>>>> \o Build(S \ {i})
+                         IN <<<<Uv[i][1], Uv[i][2], Uv[i][3], a[i]>>>> \o Build(S \ {i})
     IN Build(idx)
+TilesOf(a) == TilesOfU(U(fmt), a)
 
 UniverseQuick == << <<0, 0, 0>>, <<1, 1, 0>>, <<3, 7, 7>>, <<9, 255, 255>>, <<9, 256, 255>>, <<9, 256, 256>> >>
 UniverseThorough == UniverseQuick \o << <<9, 255, 256>>, <<2, 1, 2>> >>
 AllFormats == Formats
+OnlyMBTiles == {"mbtiles"}
+\* a full 4x4 grid at level 2: every table, in particular the ones whose extreme rows are not in the
+\* left-most, middle or right-most column
+Grid4x4 == [i \in 1..16 |-> <<2, (i - 1) % 4, (i - 1) \div 4>>]
+Grid4x3 == [i \in 1..12 |-> <<2, (i - 1) % 4, (i - 1) \div 4>>]
 CrashFormats == {"versatiles", "pmtiles"}
 UniverseCrashQuick == << <<0, 0, 0>>, <<3, 7, 7>>, <<9, 255, 255>>, <<9, 256, 255>> >>
 UniverseCrashThorough == UniverseCrashQuick \o << <<9, 256, 256>>, <<1, 1, 0>> >>
 \* universes for the independent-encoder cases (C16): Hilbert-consecutive coordinates at level 1 (run lengths)
 \* and both sides of the block grid at level 9
-UniverseIndepQuick == << <<1, 0, 0>>, <<1, 0, 1>>, <<9, 255, 255>>, <<9, 256, 255>> >>
-UniverseIndepThorough == << <<1, 0, 0>>, <<1, 0, 1>>, <<1, 1, 1>>, <<9, 255, 255>>, <<9, 256, 255>>, <<3, 7, 0>> >>
+\* (cfg: Universe <- EmptyUniverse selects the per-format universes UniverseIndep(f))
+EmptyUniverse == <<>>
 
 Emit(rec) == PrintT(<<"REPLAY", ToJson(rec)>>)
 
 Init ==
-    /\ assign \in [1..Len(Universe) -> 0..2]
-    /\ assign # [i \in 1..Len(Universe) |-> 0]            \* no format can express the empty tile set
     /\ fmt \in FormatsUsed
+    /\ assign \in [1..Len(U(fmt)) -> 0..PayloadIds]
+    /\ assign # [i \in 1..Len(U(fmt)) |-> 0]              \* no format can express the empty tile set
     /\ par \in Pairs(fmt)
     /\ choice \in LayoutChoices(fmt)
     /\ Emit([k |-> "case", origin |-> Origin, fmt |-> fmt, tf |-> par[1], tc |-> par[2], tiles |-> TilesOf(assign),
@@ -75,4 +97,7 @@ Spec == Init /\ [][Next]_vars
    threshold, offsets relative to the block) produces a layout from which the published decoding
    recovers exactly the source *)
 InvWriterModel == fmt = "versatiles" => ThmWriterDecodes(TilesOf(assign))
+\* design level: the MBTiles reader's estimate-then-refine query plan yields the exact row range (per level)
+TableAt(z) == {<<t[2], MaxIdx(z) - t[3]>> : t \in {TilesOf(assign)[i] : i \in {j \in 1..Len(TilesOf(assign)) : TilesOf(assign)[j][1] = z}}}
+InvMBTilesPlan == fmt = "mbtiles" => \A z \in Levels(TilesOf(assign)) : ThmRefineExact(TableAt(z))
 =============================================================================
